@@ -639,7 +639,9 @@ def rule_ownsolver(ctx):
                 if nm not in ("Err", "from_residual"):
                     early = y
         if early is not None:
-            res.violate("%s : fit-bypasses-own-solver" % key, "`%s` returns a model before the model's own problem is set up and solved: what it returns is the optimum of another objective (a sibling's penalty for the same alpha)" % r.e(early)[:60], fn_loc(fn, early.get("ln")))
+            # a second route to a model (a special case handed to a sibling solver, say): whether it optimises the same
+            # penalised objective depends on how the parameters are translated - a statement about values
+            res.undecided("%s : second-route-to-a-model" % key, "`%s` returns a model before the model's own problem is set up and solved; that this route optimises the same objective (the same penalty for the same alpha) is not decided" % r.e(early)[:60], fn_loc(fn, early.get("ln")))
         else:
             res.ok()
     return res.finish(2)
